@@ -105,6 +105,15 @@ impl<S: BlobStore> HuffmanBlobStore<S> {
             return Err(ZiporaError::invalid_data("No training data provided"));
         }
 
+        // Coded records carry no copy of the tree they were coded with: `get` decodes them with the
+        // current one. Replacing the tree once a record has been coded with it would make every such
+        // record read back as different bytes.
+        if self.tree.is_some() && self.stats.compressions > 0 {
+            return Err(ZiporaError::invalid_operation(
+                "Huffman tree is in use: records were already coded with it",
+            ));
+        }
+
         let tree = HuffmanTree::from_data(&self.training_data)?;
         let encoder = HuffmanEncoder::new(&self.training_data)?;
 
